@@ -71,4 +71,15 @@ def expected (d : List FieldDesc) (dst src : Val) : Val :=
   | .msg dfs, .msg sfs => .msg (specFields d dfs sfs)
   | _, _ => dst
 
+/-! ### `load.Load`: which files count, in which order (documentation of `load.Mode`, `PatchDirs`, `PatchPaths`) -/
+
+/-- the message a loader obtains: `ptype` 0 none / 1 replace / 2 merge, `mode` 0 all / 1 only-main / 2 only-patch;
+`patches` in the given order, `none` for a file that does not exist -/
+def loadExpected (d : List FieldDesc) (ptype mode : Nat) (main : Val) (patches : List (Option Val)) : Val :=
+  let existing := patches.filterMap id
+  if ptype == 0 || mode == 1 then main                                   -- no patching / patch files ignored
+  else if existing.isEmpty then (if mode == 2 then .msg [] else main)     -- nothing to apply
+  else if ptype == 1 then existing.getLast?.getD main                     -- replace: the last patch file alone
+  else existing.foldl (expected d) (if mode == 2 then .msg [] else main)  -- merge: applied in the given order
+
 end TableauVerif.Spec.C13
